@@ -13,6 +13,7 @@ db == N("b", FALSE, FALSE, FALSE, "", 3)
 dout == N("out", FALSE, FALSE, FALSE, "", 7)
 dl == N("lnk", FALSE, FALSE, FALSE, "", 6)                 \* a symbolic link to a directory outside the input tree
 MCLinkNames == {"lnk"}
+ddot == N("v1.", FALSE, FALSE, FALSE, "", 9)               \* a directory whose name ends in a dot (also the default separator)
 dab == N("ab", FALSE, FALSE, FALSE, "", 2)                 \* sibling of "a" whose name begins like it
 L1 == N("l1.cmake", TRUE, TRUE, TRUE, "l1", 6)             \* written with a Latin-1 byte: not UTF-8
 XY == N("x-y.cmake", TRUE, TRUE, TRUE, "x-y", 7)             \* sorts before x.cmake ('-' < '.')
@@ -44,7 +45,8 @@ SmallTrees == {Mk(f, NoCh) : f \in RootFiles}
            \cup {Mk({X, T}, (da :> Leaf({Y})) @@ (db :> Leaf({X})))}
            \cup {Mk({X, L1}, (da :> Leaf({X})))}
            \cup {Mk({X, XD}, (da :> Leaf({DE, B})))}
-           \cup {Mk({X, ED}, (da :> Leaf({ED})))}                    \* a name that Unicode normalisation would change
+           \cup {Mk({X, ED}, (da :> Leaf({ED})))}
+           \cup {Mk({X}, (ddot :> Mk({X}, (da :> Leaf({X})))))}                    \* a name that Unicode normalisation would change
            \cup {Mk({X}, (da :> Mk({HD}, (db :> Leaf({X})))))}
            \* linked directories: next to a real one, and below one; with CMake files and without
            \cup {Mk({X}, (dl :> Leaf({X, Z})) @@ (da :> Leaf({X}))), Mk({X}, (da :> Mk({X}, (dl :> Mk({X}, (db :> Leaf({X}))))))), Mk({X}, (dl :> Leaf({T})))}       \* a directory whose only CMake file is hidden, with a sub-directory                \* names with several dots, at the top and below
@@ -57,7 +59,7 @@ P(txt, comp, dironly) == [txt |-> txt, comp |-> comp, dironly |-> dironly, abs |
 Pabs(txt, path) == [txt |-> txt, comp |-> {}, dironly |-> FALSE, abs |-> <<TRUE, path>>, parent |-> ""]
 Pin(txt, parent, comp) == [txt |-> txt, comp |-> comp, dironly |-> FALSE, abs |-> <<FALSE, <<>>>>, parent |-> parent]
 \* the whole input is excluded: by its own absolute path, and by '<ancestor>/*' (everything below that ancestor)
-WholeInput == { {Pabs("@", <<>>)}, {Pabs("**/%P/*", <<>>)} }
+WholeInput == { {Pabs("@", <<>>)}, {Pabs("@/", <<>>)}, {Pabs("**/%P/*", <<>>)} }      \* "@/": the input directory as a directory-only pattern
 MCPatternSets == WholeInput \cup { {}, {Pin("**/b/*.cmake", "b", {"x.cmake", "z.cmake", "x-y.cmake", "d.e-f.cmake", "l1.cmake", "x.d.cmake", ".h.cmake", "e~.cmake"})}, {Pin("**/a/b", "a", {"b"})}, {P("x.cmake/", {"x.cmake"}, TRUE), P("b/", {"b"}, TRUE)}, {P("*.cmake/", {"x.cmake", "z.cmake", "x-y.cmake", "d.e-f.cmake", "l1.cmake", "x.d.cmake", ".h.cmake", "e~.cmake"}, TRUE)}, {P("a/", {"a"}, TRUE)}, {P("a/", {"a"}, TRUE), P("b", {"b"}, FALSE)}, {P("x.cmake", {"x.cmake"}, FALSE)},
                    {P("x.cmake", {"x.cmake"}, FALSE), P("z.cmake", {"z.cmake"}, FALSE)}, {P("*.CMAKE", {"Y.CMAKE"}, FALSE)},
                    {P("**/b", {"b"}, FALSE)}, {Pabs("@/a/x.cmake", <<da, X>>)}, {P("*.cmake", {"x.cmake", "z.cmake", "x-y.cmake", "d.e-f.cmake", "l1.cmake", "x.d.cmake", ".h.cmake", "e~.cmake"}, FALSE), P("n.txt", {"n.txt"}, FALSE)},
